@@ -2,6 +2,7 @@
    until close_lock".  No proofs.  A table is a list indexed by descriptor number (beyond its end: free); open()
    returns the lowest free number; close(n) frees n; dup2(x, n) closes n and makes it a copy of x.  The program is
    main()'s descriptor traffic: [sanitize_std_fds, iff the source has it: gen/GenStart.main_sanitizes_std_fds],
+   with --syslog the fclose (stderr) of log_close_file and [sanitize_std_fds again: syslog_branch_resanitizes],
    any files opened and kept before the lock (log file, daemon pipe, ...: the list pre, arbitrary), the lock file,
    the socket, the pid file (opened and closed), then daemonize_fini: open /dev/null, dup2 onto each of
    gen/GenStart.fini_dup2_targets, close it if it is > 2. *)
@@ -54,14 +55,23 @@ Definition fini (t : table) : table :=
   let t2 := fold_left (fun t n => dup2 t dn n) fini_dup2_targets t1 in
   if 2 <? dn then fclose t2 dn else t2.
 
-Definition start_fds (sanitizes : bool) (t0 : table) (pre : list obj) : started :=
-  let t1 := if sanitizes then sanitize t0 else t0 in
+(* everything from the first file opened and kept to the end of daemonize_fini *)
+Definition rest_fds (t1 : table) (pre : list obj) : started :=
   let t2 := open_all t1 pre in
   let '(t3, lf) := fopen t2 LockF in
   let '(t4, sf) := fopen t3 SockF in
   let '(t5, pf) := fopen t4 Tmp in
   let t6 := fclose t5 pf in
   mkStarted (fini t6) lf sf.
+
+(* main(): [sanitize]; with --syslog: log_close_file () = fclose (stderr) frees descriptor 2, [sanitize again]; rest *)
+Definition start_fds_mode (sanitizes resanitizes syslog : bool) (t0 : table) (pre : list obj) : started :=
+  let t1 := if sanitizes then sanitize t0 else t0 in
+  let t1' := if syslog then (let t := fclose t1 2 in if resanitizes then sanitize t else t) else t1 in
+  rest_fds t1' pre.
+
+Definition start_fds (sanitizes : bool) (t0 : table) (pre : list obj) : started :=
+  start_fds_mode sanitizes false false t0 pre.
 
 Definition is_obj (o : option obj) (x : obj) : bool := match o with Some y => obj_eqb y x | None => false end.
 
